@@ -82,7 +82,8 @@ class Axis:
             return False
 
         for neighbour in self.neighbours:
-            if neighbour.is_defined:
+            # a neighbour can be defined by gradings copied from coincident wires alone, with no chops to pass on
+            if neighbour.is_defined and len(neighbour.wires.chops) > 0:
                 if neighbour.is_aligned(self):
                     for chop in neighbour.wires.chops:
                         self.wires.add_chop(chop.copy_preserving())
